@@ -657,6 +657,8 @@ def run_shard(rec, seed, shard, tier):
     warnings.filterwarnings("ignore")
     GT.ensure_registered()
     C04.ensure_faulty_registered()
+    if shard["i"] % 4 == 1:
+        real.temporaries_probe(rec, "C12")  # a verdict about a value that has died says nothing about its successor
     # the specification: the battery's answers in a fresh process that has done nothing else
     fresh = cold(["--battery-only"])
     if "error" in fresh:
